@@ -131,6 +131,17 @@ def toy_curve_modules(Q, d, L, By):
 # --------------------------------------------------------------------------
 # universe: groups and parameter sets by name
 # --------------------------------------------------------------------------
+_published = None
+
+
+def published():
+    """spec/published.json: released constants, independent of the working tree"""
+    global _published
+    if _published is None:
+        _published = json.load(open(os.path.join(VERIF, "spec", "published.json")))
+    return _published
+
+
 class Universe:
     """Named groups and parameter sets: the live objects of the code under
     test together with the descriptors the specification rebuilds them from
@@ -156,7 +167,9 @@ class Universe:
                 p, q, g = TOY_INT[name]
             G = sp.groups.IntegerGroup(p=p, q=q, g=g)
         self.groups[name] = G
-        self.gdesc[name] = {"kind": "int", "p": numhex(p), "q": numhex(q), "g": numhex(g)}
+        # shipped groups are described to the specification by their PUBLISHED constants, never by the live ones
+        self.gdesc[name] = dict(published()["groups"][name]) if name in shipped else \
+            {"kind": "int", "p": numhex(p), "q": numhex(q), "g": numhex(g)}
         return G
 
     def ed_group(self, name):
@@ -170,8 +183,12 @@ class Universe:
             G = gm.Ed25519Group
         self.groups[name] = G
         self.basic[name] = basic
-        self.gdesc[name] = {"kind": "ed", "Q": numhex(basic.Q), "d": numhex(basic.d % basic.Q),
-                            "L": numhex(basic.L), "By": numhex(basic.By % basic.Q)}
+        if name == "Ed25519":
+            pg = published()["groups"]["Ed25519"]
+            self.gdesc[name] = {k: pg[k] for k in ("kind", "Q", "d", "L", "By")}
+        else:
+            self.gdesc[name] = {"kind": "ed", "Q": numhex(basic.Q), "d": numhex(basic.d % basic.Q),
+                                "L": numhex(basic.L), "By": numhex(basic.By % basic.Q)}
         return G
 
     def group(self, name):
@@ -194,7 +211,8 @@ class Universe:
         if name in shipped:
             grp, P = shipped[name]
             self.group(grp)
-            M, N, S = P.M_str, P.N_str, P.S_str
+            # the released seeds (published.json), not whatever the live object says
+            M, N, S = [unhx(published()["seeds"][k]) for k in "MNS"]
             if P.group is not self.groups[grp]:
                 raise MachineryError("shipped parameter set %s is not over %s" % (name, grp))
         else:
